@@ -146,14 +146,19 @@ def register(PROPS, COMPONENTS):
                    "false only so; reset() releases activeLock only with `activated` false, and after a set-inactive "
                    "step, absent a later set-active, `activated` is false and `triggered` is true unless an activate() "
                    "is between its clear and set-active steps; L2-L4 (mutex holders always enabled, bounded remaining "
-                   "steps of a waiter while its flag is true, per-thread deadlock-freedom); a concrete accepted trace "
-                   "showing the re-activation proviso is necessary. The model is tied to the source on every run: the "
-                   "unmodified header runs against substituted std primitives under a deterministic scheduler and "
-                   "every primitive-level trace must be accepted by the model's step function with all edges covered.",
+                   "steps of a waiter while its flag is true, per-thread deadlock-freedom); termination under the proviso "
+                   "without any fairness assumption (Base/Live.lean: from a reachable state with both flags true, every "
+                   "execution that performs no clear / set-inactive step and finitely many calls is finite, with an explicit "
+                   "bound, and ends with every thread returned); a concrete accepted trace showing the re-activation proviso "
+                   "is necessary. The model is tied to the source on every run: the unmodified header runs against "
+                   "substituted std primitives under a deterministic scheduler, every primitive-level trace must be accepted "
+                   "by the model's step function with all edges covered, and every line and member function of the header "
+                   "must be executed.",
         level_note="Trusted: Lean kernel (+propext, Classical.choice, Quot.sound), the primitive semantics assumed for std::mutex / "
-                   "condition_variable / atomics as interleaved cells, the shim+scheduler+driver glue. Partial: the liveness "
-                   "clause is proved as the safety facts that imply it under weak fairness (L1-L4); the fair-termination "
-                   "step itself is not mechanised.",
+                   "condition_variable / atomics as interleaved cells, the shim+scheduler+driver glue. Partial: the wake-up clause "
+                   "is mechanised to termination only for the case where BOTH flags are true and stay so (the proviso taken for "
+                   "both condition variables at once); for a trigger on its own (activated may be reset meanwhile) and for "
+                   "activate on its own it is proved as the safety facts L1-L4 that imply it under weak fairness.",
         trusted_base=["Model/Trigger.lean is a hand-written model of TriggerVariable.hpp (all nine public methods, reset's "
                       "unlock/trigger/lock loop with its acquire load included); it is a discipline slightly weaker than "
                       "today's code: the store and the notify_all inside trigger()'s / activate()'s critical section may "
@@ -164,12 +169,15 @@ def register(PROPS, COMPONENTS):
                       "the statement of the theorems",
                       "the shim's condition variable re-acquires the mutex in the same step as the wake-up / time-out "
                       "(a time-out that loses a race with a notification appears as a notified wake-up)"],
-        partial=["'a successful trigger(), activate() or reset() releases every thread already blocked on that event' is "
-                 "proved as the safety facts L1-L4 (no lost wake-up for both condition variables incl. the history form "
-                 "under the re-activation proviso, mutex holders never blocked, bounded remaining own steps of a waiter "
-                 "while its flag stays true, per-thread deadlock-freedom: a thread is enabled, or waits for a mutex whose "
-                 "holder is enabled, or sleeps untimed on an event that has not happened); the final fair-scheduler "
-                 "termination step is not mechanised"],
+        partial=["'a successful trigger(), activate() or reset() releases every thread already blocked on that event, provided the "
+                 "variable is not re-activated while they are still blocked': fully mechanised (termination for every scheduler, "
+                 "C11_armed_terminates / C11_armed_bounded_run / C11_armed_stuck_all_returned) for executions that start with "
+                 "activated = triggered = true and perform neither a clear step nor a set-inactive step; for each condition "
+                 "variable separately (only its own flag stays true) it is proved as the safety facts L1-L4 (no lost wake-up "
+                 "incl. the history form under the proviso, mutex holders never blocked, bounded remaining own steps of a "
+                 "waiter while its flag stays true, per-thread deadlock-freedom) whose fair-scheduler termination step is not "
+                 "mechanised. Without the proviso the clause is false (C11_proviso_needed), and reset()'s loop can spin "
+                 "forever under an unfair scheduler - both are behaviour of the code, not findings"],
         assumptions=["std::mutex / std::condition_variable behave as in Base semantics (spurious wake-ups allowed; timed waits "
                      "may time out at any point)",
                      "seq_cst atomics (and reset's acquire load) are interleaved cells (C07 carries the memory-model half)",
